@@ -17,6 +17,7 @@ type effect int
 
 const (
 	effNone effect = iota
+	effArgs
 	effAll
 )
 
@@ -154,9 +155,16 @@ func (fr *Frame) calleeEffects(com *ssa.CallCommon) effect {
 		if con.Pure || con.Benign || modifiesNothing(con) {
 			return effNone
 		}
+		if modifiesArgs(con) {
+			return effArgs
+		}
 		return effAll
 	}
 	return effAll
+}
+
+func modifiesArgs(con *Contract) bool {
+	return len(con.Modifies) == 1 && con.Modifies[0] == "args"
 }
 
 func modifiesNothing(con *Contract) bool {
@@ -425,7 +433,22 @@ func (fr *Frame) contractCall(con *Contract, key string, sig *types.Signature, c
 			res.T = append(res.T, fr.pureApp(con, key, i, ca, sig, st))
 		}
 	} else {
-		if !(con.Benign || modifiesNothing(con)) {
+		if modifiesArgs(con) {
+			// only the objects directly pointed to by pointer arguments may change
+			done := map[string]bool{}
+			for _, o := range ca.outs {
+				fr.write(o.l, st, c.freshOfType("out", o.l.typ))
+				done[o.p.S] = true
+			}
+			for i, t := range ca.terms {
+				pt, ok := ca.types[i].Underlying().(*types.Pointer)
+				if !ok || done[t.S] {
+					continue
+				}
+				l := c.ptrLVal(t, pt.Elem())
+				fr.write(l, st, c.freshOfType("out", pt.Elem()))
+			}
+		} else if !(con.Benign || modifiesNothing(con)) {
 			c.havocAll(st)
 			for _, o := range ca.outs {
 				fr.copyOut(o.l, o.p, st)
